@@ -410,6 +410,9 @@ def method_rule_jobs(rng, tier):
                 mem = 'actor(first_name = "U")'
                 jobs += [
                     ("family-mutable-shared-receiver", "family", attr(lk, mem), impl(["pub fn tgt(actor: &mut std::sync::Arc<std::sync::%s<Self>>, n: u8) {}" % lk]), "DIAG", False),
+                    # a member filter may only name methods the member can have: a by-value `self` method is never part of a member's model
+                    ("family-filter-names-consuming-method", "family", attr(lk, 'actor(first_name = "U", %s(fin))' % rng.choice(["include", "exclude"]), 'actor(first_name = "V")'),
+                     impl(["pub fn tgt(&self, n: u8) {}", "pub fn fin(self) -> u8 { 0 }"]), "DIAG", False),
                     ("family-shared-receiver-twin", "family", attr(lk, mem), impl(["pub %sfn tgt(actor: &std::sync::Arc<std::sync::%s<Self>>, n: u8) {}" % (asy if False else "", lk)]), "TOKENS", False),
                 ]
     return jobs
